@@ -51,11 +51,11 @@ func Spec(tier string, seed int64, workers int) gharness.Spec {
 
 // e2eSpec is the end-to-end facet: the real build.Session with the cache switched on, over the simulated disk.
 func e2eSpec(tier string, seed int64, workers int) gharness.Spec {
-	n := 8
+	n, budget := 8, 10*time.Minute
 	if tier == "thorough" {
-		n = 80
+		n, budget = 80, 45*time.Minute
 	}
-	return gharness.Spec{Property: "C20", Tier: tier, Seed: seed, Workers: workers, Pkg: "./build", Level: "fault_enumeration", EnumShards: workers, Timeout: 60 * time.Minute,
+	return gharness.Spec{Property: "C20", Tier: tier, Seed: seed, Workers: workers, Pkg: "./build", Level: "fault_enumeration", EnumShards: workers, Timeout: 3 * time.Hour, Budget: budget,
 		EnumTests: []string{"TestVerifCacheE2E"},
 		Prepare: func(scratch string) ([]string, error) {
 			list, err := corpus.Generate(filepath.Join(scratch, "corpus"), seed+20, n)
